@@ -23,6 +23,14 @@ type paramSet struct {
 	coq string
 }
 
+func bigField(f string) *fqlast.E { return fqlast.Member(fqlast.Var("x"), fqlast.Seg{Name: f}) }
+
+// FOR x IN @big SORT keys RETURN x.k
+func sortBig(keys []fqlast.SortKey) *fqlast.Program {
+	return &fqlast.Program{For: &fqlast.For{Val: "x", Src: fqlast.Param("big"),
+		Body: []fqlast.Clause{{K: "sort", Keys: keys}}, Ret: &fqlast.Ret{E: bigField("k")}}}
+}
+
 func paramSets() []paramSet {
 	mk := func(n int, arr []interface{}, obj map[string]interface{}, s string, f float64) paramSet {
 		big := make([]interface{}, 30)
@@ -85,6 +93,11 @@ func main() {
 		{Ret: fqlast.Math("%", fqlast.Int(1), fqlast.Int(0))},
 		{Ret: fqlast.Member(fqlast.Arr(fqlast.Int(1), fqlast.Int(2)), fqlast.Seg{Expr: fqlast.Int(-1)})},
 		{Ret: fqlast.Arr(fqlast.Un("NOT", fqlast.Log("AND", fqlast.Int(1), fqlast.Int(2))), fqlast.Math("+", fqlast.Un("-", fqlast.Int(2)), fqlast.Int(3)))},
+		// 30 rows with tied sort keys: SORT keeps tied rows in source order (stable)
+		sortBig([]fqlast.SortKey{{E: bigField("a")}}),
+		sortBig([]fqlast.SortKey{{E: bigField("b"), Desc: true, Dir: "DESC"}}),
+		sortBig([]fqlast.SortKey{{E: bigField("a"), Dir: "ASC"}, {E: bigField("b"), Desc: true, Dir: "DESC"}}),
+		sortBig([]fqlast.SortKey{{E: fqlast.Int(0)}}),
 	}
 	n += len(corpus)
 	for i := 0; i < n; i++ {
